@@ -40,8 +40,8 @@ def expected_points(sc, trans, step, cfg_after):
 
 class C08(InterpProp):
     id = 'C08'
-    quick_cases = 150
-    thorough_cases = 3000
+    quick_cases = 800
+    thorough_cases = 30000
     n_ops = 24
     rule = ('random charts in which every contract condition is conjoined with its own context flag (`cN and …`); a '
             'baseline history is run with all flags true, then ONE condition is made to fail before ONE chosen '
